@@ -74,6 +74,9 @@ impl SlatepackArmor {
 		// Get the length of the header
 		let header_len = header_bytes.len() + 1;
 		// Skip the length of the header to read for the payload until the next period
+		if header_len > armor_bytes.len() {
+			return Err(Error::SlatepackDeser("Bad armor framing".into()));
+		}
 		let payload_bytes = armor_bytes[header_len as usize..]
 			.iter()
 			.take_while(|byte| **byte != b'.')
@@ -83,6 +86,9 @@ impl SlatepackArmor {
 		let payload_len = payload_bytes.len();
 		// Get footer bytes and verify them
 		let consumed_bytes = header_len + payload_len + 1;
+		if consumed_bytes > armor_bytes.len() {
+			return Err(Error::SlatepackDeser("Bad armor framing".into()));
+		}
 		let footer_bytes = armor_bytes[consumed_bytes as usize..]
 			.iter()
 			.take_while(|byte| **byte != b'.')
@@ -99,6 +105,9 @@ impl SlatepackArmor {
 		let base_decode = bs58::decode(&clean_payload)
 			.into_vec()
 			.map_err(|_| Error::SlatepackDeser("Bad bytes".into()))?;
+		if base_decode.len() < 4 {
+			return Err(Error::SlatepackDeser("Bad bytes".into()));
+		}
 		let error_code = &base_decode[0..4];
 		let slatepack_bytes = &base_decode[4..];
 		// Make sure the error check code is valid for the slate data
